@@ -6,6 +6,7 @@
 // between. After every step every piece of state derived for a chunk is compared with the latest
 // instant any acceptable manifest delivered so far allows.
 #include "worlds/common.hpp"
+#include "worlds/swarm_variant.hpp"
 
 using namespace wl;
 
@@ -199,6 +200,7 @@ Scenario make_c03() {
     s.rule = "plan = TTL limits, cleanup interval, clock jitter + 4..30 operations (ingest / announce / replica / fetch with one of 20 relative expiries, time advances, ticks); non-trivial = a delivered manifest is expired, at the minimum-TTL edge or beyond the maximum TTL; distinct = plan hash";
     s.gen = gen_c03; s.exec = exec_c03; s.kernel_knobs = c03_knobs;
     s.quick_runs = 30000; s.thorough_runs = 3000000; s.quick_secs = 45; s.thorough_secs = 900;
+    add_swarm_variant(s, 100);
     return s;
 }
 Registrar reg_c03(make_c03);
